@@ -138,23 +138,24 @@ Section StrokeR.
   Qed.
 
   (** interpolated way-points are present only when requested *)
-  Theorem probe_no_interp_unless_requested strategy poses stopped tr :
-    probe_strategy (T:=R) Pose ik mid coef max_cost rrt budget0 false strategy poses stopped = Some tr ->
+  Theorem probe_no_interp_unless_requested start strategy poses stopped tr :
+    probe_strategy (T:=R) Pose ik mid coef max_cost rrt budget0 false start strategy poses stopped = Some tr ->
     Forall (fun a => Z.testbit (snd a) 3 = false) tr.
   Proof.
-    unfold probe_strategy. destruct poses as [|p0 rest].
-    - intros [= <-]. constructor; [reflexivity | constructor].
-    - destruct (probe_loop p0 rest [(strategy, F_LAND)] strategy) as [t|]; [|discriminate].
+    unfold probe_strategy. destruct (rrt start strategy) as [onb|]; [|discriminate]. destruct poses as [|p0 rest].
+    - intros [= <-]. unfold onboard. apply Forall_app. split; [|constructor; [reflexivity | constructor]].
+      apply Forall_forall. intros a Ha. apply in_map_iff in Ha. destruct Ha as [x [<- _]]. reflexivity.
+    - destruct (probe_loop p0 rest (onboard onb strategy) strategy) as [t|]; [|discriminate].
       destruct stopped; [discriminate|]. intros [= <-].
       apply Forall_forall. intros a Ha. apply filter_In in Ha. destruct Ha as [_ Hb]. apply negb_true_iff in Hb. exact Hb.
   Qed.
 
   (** a raised stop flag never yields a path *)
-  Theorem probe_stopped include strategy poses : poses <> [] ->
-    probe_strategy (T:=R) Pose ik mid coef max_cost rrt budget0 include strategy poses true = None.
+  Theorem probe_stopped include start strategy poses : poses <> [] ->
+    probe_strategy (T:=R) Pose ik mid coef max_cost rrt budget0 include start strategy poses true = None.
   Proof.
-    intros Hne. unfold probe_strategy. destruct poses as [|p0 rest]; [contradiction|].
-    destruct (probe_loop p0 rest [(strategy, F_LAND)] strategy); reflexivity.
+    intros Hne. unfold probe_strategy. destruct (rrt start strategy) as [onb|]; [|reflexivity]. destruct poses as [|p0 rest]; [contradiction|].
+    destruct (probe_loop p0 rest (onboard onb strategy) strategy); reflexivity.
   Qed.
 
   (** * planning: success does not depend on the scheduling choice *)
@@ -181,10 +182,10 @@ Section StrokeR.
   Theorem plan_success_iff from land steps park :
     (exists tr, plan from land steps park = Some tr) <->
     start_collides = false /\
-    exists s tr, In s (ik land from) /\ probe s (wip land steps park) (stop_seen s) = Some tr.
+    exists s tr, In s (ik land from) /\ probe from s (wip land steps park) (stop_seen s) = Some tr.
   Proof.
     unfold Stroke.plan. destruct start_collides; [split; [intros [tr H]; discriminate | intros [H _]; discriminate]|].
-    set (hits := filter_map_o (fun s => probe s (wip land steps park) (stop_seen s)) (ik land from)).
+    set (hits := filter_map_o (fun s => probe from s (wip land steps park) (stop_seen s)) (ik land from)).
     destruct (choose_ok hits) as [Hn Hin]. split.
     - intros [tr Hp]. split; [reflexivity|]. destruct (ik land from) as [|s0 r] eqn:Ek; [discriminate|].
       apply Hin in Hp. apply filter_map_o_In in Hp. destruct Hp as [s [Hs Hf]]. exists s, tr. split; [exact Hs | exact Hf].
@@ -197,10 +198,10 @@ Section StrokeR.
   (** whatever strategy wins, the returned plan is the plan of SOME strategy (so it has all per-strategy properties) *)
   Theorem plan_is_a_probe from land steps park tr :
     plan from land steps park = Some tr ->
-    exists s, In s (ik land from) /\ probe s (wip land steps park) (stop_seen s) = Some tr.
+    exists s, In s (ik land from) /\ probe from s (wip land steps park) (stop_seen s) = Some tr.
   Proof.
     unfold Stroke.plan. destruct start_collides; [discriminate|]. destruct (ik land from) as [|s0 r] eqn:Ek; [discriminate|].
-    intros Hp. destruct (choose_ok (filter_map_o (fun s => probe s (wip land steps park) (stop_seen s)) (s0 :: r))) as [_ Hin].
+    intros Hp. destruct (choose_ok (filter_map_o (fun s => probe from s (wip land steps park) (stop_seen s)) (s0 :: r))) as [_ Hin].
     apply Hin in Hp. apply filter_map_o_In in Hp. exact Hp.
   Qed.
 End StrokeR.
